@@ -262,7 +262,7 @@ func UnmarshalYAML(bs []byte, v interface{}) error {
 }
 
 func Unmarshal(bs []byte, v interface{}) error {
-	if bs[0] == '{' {
+	if 0 < len(bs) && bs[0] == '{' {
 		return json.Unmarshal(bs, v)
 	}
 
